@@ -23,6 +23,7 @@ RULE = (
 ASSUMPTIONS = [
     "a complete 'CSI n;m R' inside the extra input is indistinguishable from a report and is excluded from the generator",
     "the previously recorded cursor row is the reference terminal's cursor row after the last render / the last reported row",
+    "after content has moved, get_cursor_vertical_diff is called before the next render (the documented protocol); a render with unaccounted movement is outside the histories judged",
     "vertical movement is produced the way terminals produce it: downwards by the terminal getting taller (content and cursor move down), upwards by content scrolling up; the cursor never moves below the last row of an unchanged terminal",
 ]
 SHARDS = {"quick": 4, "thorough": 16}
@@ -146,9 +147,15 @@ def run_diff(case, res):
             res.viol("enter_raised", error=exc_str(e), case=case)
             return res
         recorded = None  # cursor row the window last recorded (after a render or a query)
+        dirty = False  # content moved since the last query/render
         nq = 0
         for step, op in enumerate(case["steps"]):
             ctx = dict(step=step, case=case)
+            if op["op"] == "render" and dirty:
+                # the cursor has moved since the last render and the window has not been told yet (protocol: after a size
+                # change call get_cursor_vertical_diff, then render): rendering now is outside the quantified histories
+                res.label("render_with_unaccounted_movement_skipped")
+                continue
             if op["op"] == "render":
                 rows = ["r%d" % i for i in range(op["n"])]
                 cur = (min(op.get("cursor_row", 0), max(op["n"] - 1, 0)), 0)
@@ -164,6 +171,12 @@ def run_diff(case, res):
             elif op["op"] == "move":
                 h = term.move_content(op["d"])
                 pty.set_size(h, w)
+                dirty = True
+            elif op["op"] == "resize":
+                h = term.resize_rows(op["h"])
+                pty.set_size(h, w)
+                dirty = True
+                res.label("terminal_resized")
             else:
                 nq += 1
                 top_before = win.top_usable_row
@@ -218,6 +231,7 @@ def run_diff(case, res):
                         res.viol("movement_not_conserved_first_query", delta_top=delta_top, returned=ret, observed_movement=moved, **ctx)
                         return res
                 recorded = final_row
+                dirty = bool(during)  # movement injected during the query may still be unaccounted
         res.evals = max(1, nq)
         call(lambda: win.__exit__(None, None, None))
     finally:
@@ -244,7 +258,8 @@ def strategy():
             "row": st.one_of(st.integers(1, 60), st.integers(1, 10**6)),
             "col": st.one_of(st.integers(1, 200), st.integers(1, 10**6)),
             "csi": st.sampled_from(["7bit", "7bit", "8bit"]),
-            "extra": st.one_of(st.just(""), extra, extra),
+            "extra": st.one_of(st.just(""), extra, extra, extra,
+                               st.tuples(extra, st.sampled_from([60, 200, 400]), extra).map(lambda t: t[0] + "k" * t[1] + t[2])),
             "trailing": st.one_of(st.just(""), st.lists(st.sampled_from(FRAGS + ["\x1b[3;4R"]), max_size=3).map("".join)),
             "errors": st.lists(st.integers(0, 30), max_size=3, unique=True),
             "callback": st.sampled_from([True, True, False]),
@@ -260,17 +275,18 @@ def strategy():
         max_size=2,
     )
     step = st.one_of(
-        st.fixed_dictionaries({"op": st.just("render"), "n": st.integers(0, 5), "cursor_row": st.integers(0, 4)}),
+        st.fixed_dictionaries({"op": st.just("render"), "n": st.one_of(st.integers(0, 5), st.integers(0, 45)), "cursor_row": st.one_of(st.integers(0, 4), st.integers(0, 44))}),
         st.fixed_dictionaries({"op": st.just("move"), "d": st.integers(-6, 6)}),
+        st.fixed_dictionaries({"op": st.just("resize"), "h": st.one_of(st.integers(2, 8), st.sampled_from([24, 50, 10]))}),
         st.fixed_dictionaries({"op": st.just("query"), "during": during}),
         st.fixed_dictionaries({"op": st.just("query"), "during": st.just([])}),
     )
     diff = st.fixed_dictionaries(
         {
             "kind": st.just("diff"),
-            "h": st.integers(2, 7),
+            "h": st.one_of(st.integers(2, 7), st.integers(2, 7), st.sampled_from([24, 50])),
             "w": st.just(8),
-            "history_lines": st.integers(0, 9),
+            "history_lines": st.one_of(st.integers(0, 9), st.integers(0, 60)),
             "steps": st.lists(step, min_size=1, max_size=10).map(
                 lambda steps: [{"op": "render", "n": 1 + len(steps) % 3, "cursor_row": len(steps) % 2}] + steps
             ),
@@ -280,5 +296,15 @@ def strategy():
 
 
 def campaign(col, tier, seed, shard, nshards):
+    # long typed-ahead input (the library re-scans its buffer per character, so this is slow: a handful of cases only)
+    longs = [1100] if tier == "quick" else [1100, 1500, 2100, 3000]
+    for i, n_extra in enumerate(longs):
+        if i % nshards != shard:
+            continue
+        case = {"kind": "pos", "row": 12, "col": 34, "csi": "7bit", "extra": "ab\x1b[1;2" + "k" * n_extra + "\n", "trailing": "zz",
+                "errors": [3, 700], "callback": True, "encoding": "utf-8"}
+        unknown = col.record(case, run_case(case), distinct=True, sample=False)
+        if unknown:
+            col.add_violation(case, unknown)
     n = 6000 if tier == "quick" else 320000
     hyp_campaign(col, strategy(), run_case, max(n // nshards, 100), seed * 100 + shard)
